@@ -77,6 +77,48 @@ def _cases_encode(run):
     return cs, tot, nz, samples
 
 
+def _alias_probe(run):
+    """history family: a caller that mutates the list returned by all_moves_for_size must not disturb the id tables
+    (the tables are the one fixed bijection of the size; the correspondence above has just compared them with the model)"""
+    from tak import moves
+    from tak.model import encoding
+    n_ops = bad = 0
+    for n in range(3, 7):
+        count = encoding.n_moves_for_size(n)
+        before = [encoding.decode_move(n, i) for i in range(count)]
+        lst = moves.all_moves_for_size(n)
+        saved = list(lst)
+        try:
+            lst.reverse()
+            dropped = lst.pop()
+            n_ops += 2
+            after_n = encoding.n_moves_for_size(n)
+            after = [encoding.decode_move(n, i) for i in range(min(after_n, count))]
+            again = list(moves.all_moves_for_size(n))
+            problems = []
+            if after_n != count:
+                problems.append(f"n_moves_for_size({n}) changed {count} -> {after_n}")
+            first = next((i for i, (a, b) in enumerate(zip(before, after)) if a != b), None)
+            if first is not None:
+                problems.append(f"decode_move({n}, {first}) changed from {before[first]} to {after[first]}")
+            rt = next((i for i, m in enumerate(after) if encoding.encode_move(n, m) != i), None)
+            if rt is not None:
+                problems.append(f"encode_move({n}, decode_move({n}, {rt})) = {encoding.encode_move(n, after[rt])} != {rt}")
+            if again != saved:
+                problems.append("a second call of all_moves_for_size returns a different list after the caller's mutation")
+        finally:
+            lst[:] = saved
+        if problems:
+            bad += 1
+            run.violation(f"alias-size{n}", {"clause": "ids correspond one-to-one with the well-formed moves of the size; encode and decode are mutual inverses",
+                                            "history": [f"l = tak.moves.all_moves_for_size({n})", "l.reverse()", "l.pop()",
+                                                        "then query encoding.n_moves_for_size / decode_move / encode_move"],
+                                            "dropped": takio.j_move(dropped), "problems": problems})
+    run.count(n_ops, n_ops, "history: the caller mutates (reverse, pop) the list returned by all_moves_for_size(n), n = 3..6, then every id "
+              "is decoded and re-encoded again and compared with the tables seen before the mutation", [{"sizes": [3, 4, 5, 6]}],
+              {"violating_sizes": bad}, label="alias-probe")
+
+
 def correspondence(run):
     core.setup_impl()
     import tak
@@ -104,6 +146,7 @@ def correspondence(run):
     for meta in failing2:
         run.violation(f"encode-illformed-size{meta['size']}", {"clause": "encoding is defined exactly on the move universe", "input": meta,
                                                                "model_view": cs2.model_view(cs2.terms[cs2.metas.index(meta)])})
+    _alias_probe(run)
     # head width
     try:
         import xformer
